@@ -5,7 +5,7 @@ PID=$1; PATCH=$(readlink -f "$2"); TIER=${3:-quick}
 D=$(mktemp -d /tmp/mutest.XXXXXX)
 trap 'rm -rf "$D"' EXIT
 cp -r /repo/score_analysis "$D/score_analysis"
-( cd "$D" && patch -p1 -s < "$PATCH" )
+( cd "$D" && patch -p1 -s < "$PATCH" ) || { echo "PATCH-FAILED $PATCH"; exit 9; }
 mkdir -p "$D/ev"
 cd "$(dirname "$0")/.."
 set +e
